@@ -771,6 +771,20 @@ fn variants_inner(ctx: &Ctx, fam: &Value, field: &str, kind: &str, target: &str,
                 let r = match field { "version" => 0..1, "algorithm" => 5..6, "v6_length" => 6..10, "oid_length" => 6..8, "mpi_bits" => 6..24, _ => 6..60 };
                 out.extend(octet_sweep(&b, 0, r.clone(), th).into_iter().map(Art::Key));
                 if let Ok(ps) = dstream(&b) { if let Some(i) = ps.iter().position(|p| p.tag == 7) { out.extend(octet_sweep(&b, i, r, th).into_iter().map(Art::Key)); } }
+                if field == "algorithm" || field == "version" {
+                    // legacy key versions carry two more octets (validity): every algorithm octet under version 2 and 3, with the certificate's
+                    // user ids and signatures still following, as a public and as a secret key
+                    if let Ok(ps) = dstream(&b) {
+                        let first = &ps[0];
+                        let rest = &b[first.raw_len..];
+                        let v4mat = &first.body[6..];
+                        for ver in [2u8, 3] { for alg in 0..=255u8 {
+                            let mut body = vec![ver, 0x5f, 0, 0, 1, 0, 0, alg];
+                            body.extend_from_slice(v4mat);
+                            for tag in [6u8, 5] { let mut k = pkt(tag, &body); k.extend_from_slice(rest); out.push(Art::Key(k)); }
+                        } }
+                    }
+                }
             }
         }
         ("key", "protection_fields") => {
